@@ -26,9 +26,9 @@ Qed.
 Theorem truthy_numbers_default :
   (forall n, is_truthy false (JNum (PosInt n)) = true <-> n <> 0) /\
   (forall z, is_truthy false (JNum (NegInt z)) = true <-> z <> 0%Z) /\
-  (forall b, is_truthy false (JNum (Float b)) = f_is_normal b).
+  (forall b, is_truthy false (JNum (Float b)) = negb (f_is_zero b) && negb (f_is_nan b)).
 Proof.
-  repeat split; cbn [is_truthy as_f64_is_normal].
+  repeat split; cbn [is_truthy as_f64_nonzero].
   - intros H ->. discriminate.
   - intros H. destruct (N.eqb_spec n 0); [contradiction | reflexivity].
   - intros H ->. discriminate.
@@ -56,7 +56,8 @@ Theorem truthy_table : forall iz : bool,
   (forall m, is_truthy iz (JObj m) = true <-> m <> []) /\
   (forall n, is_truthy iz (JNum (PosInt n)) = true <-> (iz = true \/ n <> 0)) /\
   (forall z, is_truthy iz (JNum (NegInt z)) = true <-> (iz = true \/ z <> 0%Z)) /\
-  (forall b, is_truthy iz (JNum (Float b)) = if iz then negb (f_is_nan b) else f_is_normal b).
+  (forall b, is_truthy iz (JNum (Float b)) =
+     if iz then negb (f_is_nan b) else negb (f_is_zero b) && negb (f_is_nan b)).
 Proof.
   intros iz.
   destruct (truthy_nonnumbers iz) as (H1 & H2 & _ & _ & _ & H3 & H4 & H5).
@@ -72,11 +73,12 @@ Proof.
   - intros b. destruct iz; [apply I3 | apply D3].
 Qed.
 
-(* ---- the defect: a non-zero subnormal double is falsy (1e-320 = bits 2024) ---- *)
-Theorem refuted_subnormal : exists b,
-  num_wf (Float b) = true /\ f_is_zero b = false /\ fst (f_dyadic b) <> 0%Z /\
-  is_truthy false (JNum (Float b)) = false.
-Proof. exists 2024. vm_compute. repeat split; try reflexivity. discriminate. Qed.
+(* ---- finding F5 (fixed in /repo by "fix: treat non-zero subnormal numbers as truthy"):
+   the old code tested f64::is_normal; the witness 1e-320 (bits 2024) is now truthy ---- *)
+Theorem subnormal_truthy :
+  num_wf (Float 2024) = true /\ f_is_zero 2024 = false /\ f_exp 2024 = 0 /\
+  is_truthy false (JNum (Float 2024)) = true.
+Proof. vm_compute. repeat split; reflexivity. Qed.
 
 (* ---- positive theorem ---- *)
 Lemma f_dyadic_fst_zero b : fst (f_dyadic b) = 0%Z <-> f_is_zero b = true.
@@ -90,56 +92,36 @@ Proof.
   - split; [intros H; specialize (Hp (f_man b)); lia | discriminate].
 Qed.
 
-(* for a well-formed double that is not subnormal (exponent field non-zero, or
-   the value is a zero), truthiness = "value is non-zero" *)
-Theorem truthy_float_nonsubnormal : forall b,
+(* for EVERY well-formed double (normal, subnormal or zero) truthiness = "value is non-zero" *)
+Theorem truthy_float_value : forall b,
   num_wf (Float b) = true ->
-  (f_exp b <> 0 \/ f_man b = 0) ->
   is_truthy false (JNum (Float b)) = negb (f_is_zero b) /\
   (is_truthy false (JNum (Float b)) = true <-> fst (f_dyadic b) <> 0%Z).
 Proof.
-  intros b Hwf Hns.
+  intros b Hwf.
   assert (E : is_truthy false (JNum (Float b)) = negb (f_is_zero b)).
-  { cbn [is_truthy as_f64_is_normal]. unfold f_is_normal, f_is_zero.
+  { cbn [is_truthy as_f64_nonzero]. unfold f_is_nan.
     cbn [num_wf] in Hwf. apply andb_prop in Hwf as [_ Hwf].
     destruct (N.eqb_spec (f_exp b) 2047) as [|H47]; [discriminate|].
-    destruct (N.eqb_spec (f_exp b) 0) as [H0|H0]; cbn [negb andb].
-    - destruct Hns as [Hns|Hns]; [contradiction|]. rewrite Hns. reflexivity.
-    - reflexivity. }
+    cbn [negb andb]. rewrite andb_true_r. reflexivity. }
   split; [exact E|]. rewrite E, f_dyadic_fst_zero.
   destruct (f_is_zero b); cbn [negb]; split; congruence.
 Qed.
 
-(* a well-formed double is falsy exactly when its exponent field is 0, i.e. it
-   is a zero or a subnormal *)
-Theorem truthy_float_false_iff : forall b,
-  num_wf (Float b) = true ->
-  (is_truthy false (JNum (Float b)) = false <-> f_exp b = 0).
-Proof.
-  intros b Hwf. cbn [is_truthy as_f64_is_normal]. unfold f_is_normal.
-  cbn [num_wf] in Hwf. apply andb_prop in Hwf as [_ Hwf].
-  destruct (N.eqb_spec (f_exp b) 2047) as [|H47]; [discriminate|].
-  destruct (N.eqb_spec (f_exp b) 0) as [H0|H0]; cbn [negb andb]; split; congruence.
-Qed.
-
-(* all numbers at once: apart from subnormal doubles, truthy iff the exact
-   value mant * 2^exp is non-zero *)
+(* all numbers at once: truthy iff the exact value mant * 2^exp is non-zero *)
 Theorem truthy_number_value : forall x,
   num_wf x = true ->
-  (forall b, x = Float b -> f_exp b <> 0 \/ f_man b = 0) ->
   (is_truthy false (JNum x) = true <-> fst (dyadic x) <> 0%Z).
 Proof.
-  intros [n|z|b] Hwf Hns; cbn [dyadic fst].
+  intros [n|z|b] Hwf; cbn [dyadic fst].
   - rewrite (proj1 truthy_numbers_default). lia.
   - rewrite (proj1 (proj2 truthy_numbers_default)). tauto.
-  - apply truthy_float_nonsubnormal; [exact Hwf | apply Hns; reflexivity].
+  - apply truthy_float_value; exact Hwf.
 Qed.
 
 (* hypotheses are satisfiable: 1.5 = 0x3FF8000000000000, and +0.0 *)
-Example truthy_float_nonsubnormal_ex :
+Example truthy_float_value_ex :
   num_wf (Float 4609434218613702656) = true /\
-  (f_exp 4609434218613702656 <> 0 \/ f_man 4609434218613702656 = 0) /\
   is_truthy false (JNum (Float 4609434218613702656)) = true /\
-  num_wf (Float 0) = true /\ (f_exp 0 <> 0 \/ f_man 0 = 0) /\
-  is_truthy false (JNum (Float 0)) = false.
-Proof. vm_compute. repeat split; try reflexivity; [left; discriminate | right; reflexivity]. Qed.
+  num_wf (Float 0) = true /\ is_truthy false (JNum (Float 0)) = false.
+Proof. vm_compute. repeat split; reflexivity. Qed.
